@@ -366,6 +366,36 @@ class Item:
         self.log.append({"kind": "signature", "from": " ".join(exp), "to": " ".join(texts(new)),
                          "why": why})
 
+    def lift_block(self, anchor_src, nth, new_sig_src, why=""):
+        """The item becomes a new function whose body is, verbatim, the brace block that directly follows
+        the nth occurrence of `anchor` inside the located function (a closure body, a loop body, an inner
+        block).  Dropped: everything of the enclosing function outside that block; the variables the block
+        captures become the parameters named by the declared signature (a missing/mistyped one is a compile
+        error => undecided)."""
+        pat = texts(tokenize(anchor_src))
+        o = self.body_open()
+        hits = [h for h in find_seq(self.toks, pat) if h > o]
+        if len(hits) < nth or nth < 1:
+            raise LostAnchor("lift-block: anchor `%s` occurs %d times in %s, wanted #%d"
+                             % (" ".join(pat), len(hits), self.path, nth))
+        b = hits[nth - 1] + len(pat)
+        if b >= len(self.toks) or self.toks[b].s != "{":
+            raise LostAnchor("lift-block: anchor `%s` in %s is not followed by a block" % (" ".join(pat), self.path))
+        c = match_close(self.toks, b)
+        block = self.toks[b:c + 1]
+        sig = tokenize(new_sig_src)
+        line = block[0].line
+        for t in sig:
+            t.line = line
+        self.line = block[0].line
+        self.end_line = block[-1].line
+        block[0].ws = " "
+        self.toks = sig + block
+        self.original = render(block).strip()
+        self.log.append({"kind": "lift-block", "anchor": " ".join(pat), "nth": nth,
+                         "signature": " ".join(texts(sig)), "why": why,
+                         "drops": "the rest of the enclosing function; captured variables become parameters"})
+
     def insert_at_signature(self, text):
         o = self.body_open()
         ins = tokenize("\n" + text + "\n")
